@@ -919,8 +919,11 @@ func (g *gen) type2(depth int) string {
 }
 
 func (g *gen) cmt2() string {
-	if g.chance(20) {
+	switch {
+	case g.chance(15):
 		return "// " + g.pick("c", "tlgen:tl1name:\"x\"", "  spaced  ", "a // b") + "\n" + g.pick("", "\t", "    ")
+	case g.chance(6): // several lines, the later ones indented
+		return "// first\n" + g.pick("\t", "  ", "") + "// second  \n" + g.pick("\t\t// third\n", "") + g.pick("", "\t")
 	}
 	return ""
 }
